@@ -99,31 +99,31 @@ macro_rules! video_after_key {
     };
 }
 
-//@ prop=C04,C12 tier=quick cost=60 fns="api::Muxer::write_video,Mp4Writer::write_video_sample_with_dts,extract_vp9_config" bound="fresh VP9 muxer; any f64 pts, any key flag; valid VP9 keyframe" unwind=14 stubs="fmt::format"
+//@ prop=C04,C12 tier=quick cost=21 fns="api::Muxer::write_video,Mp4Writer::write_video_sample_with_dts,extract_vp9_config" bound="fresh VP9 muxer; any f64 pts, any key flag; valid VP9 keyframe" unwind=14 stubs="fmt::format"
 video_fresh!(c04_video_fresh_vp9_key, true, false, VideoCodec::Vp9, &VP9_KEY, true);
-//@ prop=C04,C12 tier=quick cost=60 fns="api::Muxer::write_video,extract_vp9_config" bound="fresh VP9 muxer; any f64 pts, any key flag; frame without VP9 configuration" unwind=14 stubs="fmt::format" covers_optional="accepted"
+//@ prop=C04,C12 tier=quick cost=15 fns="api::Muxer::write_video,extract_vp9_config" bound="fresh VP9 muxer; any f64 pts, any key flag; frame without VP9 configuration" unwind=14 stubs="fmt::format" covers_optional="accepted"
 video_fresh!(c04_video_fresh_vp9_noconfig, true, false, VideoCodec::Vp9, &VP9_DELTA, false);
-//@ prop=C04,C12 tier=quick cost=30 fns="api::Muxer::write_video" bound="fresh VP9 muxer; any f64 pts, any key flag; empty frame" unwind=14 stubs="fmt::format" covers_optional="*"
+//@ prop=C04,C12 tier=quick cost=12 fns="api::Muxer::write_video" bound="fresh VP9 muxer; any f64 pts, any key flag; empty frame" unwind=14 stubs="fmt::format" covers_optional="*"
 video_fresh!(c04_video_fresh_empty, true, false, VideoCodec::Vp9, &[], false);
-//@ prop=C04,C12 tier=quick cost=90 fns="api::Muxer::write_video,extract_av1_config,parse_sequence_header" bound="fresh AV1 muxer; any f64 pts, any key flag; valid 7-byte AV1 keyframe" unwind=14 stubs="fmt::format"
+//@ prop=C04,C12 tier=quick cost=23 fns="api::Muxer::write_video,extract_av1_config,parse_sequence_header" bound="fresh AV1 muxer; any f64 pts, any key flag; valid 7-byte AV1 keyframe" unwind=14 stubs="fmt::format"
 video_fresh!(c04_video_fresh_av1_key, true, false, VideoCodec::Av1, &AV1_KEY, true);
-//@ prop=C04,C12 tier=quick cost=120 fns="api::Muxer::write_video,extract_avc_config,annexb_to_avcc" bound="fresh H.264 muxer; any f64 pts, any key flag; 15-byte SPS+PPS keyframe" unwind=18 stubs="fmt::format" timeout=900
+//@ prop=C04,C12 tier=quick cost=23 fns="api::Muxer::write_video,extract_avc_config,annexb_to_avcc" bound="fresh H.264 muxer; any f64 pts, any key flag; 15-byte SPS+PPS keyframe" unwind=18 stubs="fmt::format" timeout=900
 h!(c04_video_fresh_h264_key, 18, {
     let mut m = new_muxer(VideoCodec::H264, Aud::None);
     video_step(&mut m, None, &H264_KEY, true, true, false);
     crate::vcover!(true, "reached");
     core::mem::forget(m);
 });
-//@ prop=C04,C12 tier=quick cost=90 fns="api::Muxer::write_video,Mp4Writer::write_video_sample_with_dts" bound="VP9 muxer after one keyframe at t=0; any f64 pts, any key flag; 4-byte frame" unwind=14 stubs="fmt::format"
+//@ prop=C04,C12 tier=quick cost=24 fns="api::Muxer::write_video,Mp4Writer::write_video_sample_with_dts" bound="VP9 muxer after one keyframe at t=0; any f64 pts, any key flag; 4-byte frame" unwind=14 stubs="fmt::format"
 video_after_key!(c04_video_second_t0, true, false, VideoCodec::Vp9, 0.0, &VP9_DELTA);
-//@ prop=C04,C12 tier=quick cost=90 fns="api::Muxer::write_video,Mp4Writer::write_video_sample_with_dts" bound="VP9 muxer after one keyframe at t=1.0; any f64 pts, any key flag; 4-byte frame" unwind=14 stubs="fmt::format"
+//@ prop=C04,C12 tier=quick cost=24 fns="api::Muxer::write_video,Mp4Writer::write_video_sample_with_dts" bound="VP9 muxer after one keyframe at t=1.0; any f64 pts, any key flag; 4-byte frame" unwind=14 stubs="fmt::format"
 video_after_key!(c04_video_second_t1, true, false, VideoCodec::Vp9, 1.0, &VP9_DELTA);
 
-//@ prop=C05 tier=quick cost=60 fns="api::Muxer::write_video,Mp4Writer::write_video_sample_with_dts" bound="fresh VP9 muxer; any f64 pts, any key flag; frame without configuration (rejected first frame)" unwind=14 stubs="fmt::format" covers_optional="accepted"
+//@ prop=C05 tier=quick cost=10 fns="api::Muxer::write_video,Mp4Writer::write_video_sample_with_dts" bound="fresh VP9 muxer; any f64 pts, any key flag; frame without configuration (rejected first frame)" unwind=14 stubs="fmt::format" covers_optional="accepted"
 video_fresh!(c05_video_fresh_vp9_noconfig, false, true, VideoCodec::Vp9, &VP9_DELTA, false);
-//@ prop=C05 tier=quick cost=60 fns="api::Muxer::write_video" bound="fresh VP9 muxer; any f64 pts, any key flag; valid keyframe" unwind=14 stubs="fmt::format"
+//@ prop=C05 tier=quick cost=17 fns="api::Muxer::write_video" bound="fresh VP9 muxer; any f64 pts, any key flag; valid keyframe" unwind=14 stubs="fmt::format"
 video_fresh!(c05_video_fresh_vp9_key, false, true, VideoCodec::Vp9, &VP9_KEY, true);
-//@ prop=C05 tier=quick cost=90 fns="api::Muxer::write_video,Mp4Writer::write_video_sample_with_dts" bound="VP9 muxer after one keyframe at t=1.0; any f64 pts, any key flag" unwind=14 stubs="fmt::format"
+//@ prop=C05 tier=quick cost=20 fns="api::Muxer::write_video,Mp4Writer::write_video_sample_with_dts" bound="VP9 muxer after one keyframe at t=1.0; any f64 pts, any key flag" unwind=14 stubs="fmt::format"
 video_after_key!(c05_video_second_t1, false, true, VideoCodec::Vp9, 1.0, &VP9_DELTA);
 
 // ---- write_audio ----------------------------------------------------------------------
@@ -193,30 +193,30 @@ macro_rules! audio_h {
         });
     };
 }
-//@ prop=C04,C12 tier=quick cost=60 fns="api::Muxer::write_audio,Mp4Writer::write_audio_sample,is_valid_opus_packet" bound="VP9+Opus after keyframe at 1.0; any f64 pts; valid Opus packet" unwind=14 stubs="fmt::format"
+//@ prop=C04,C12 tier=quick cost=22 fns="api::Muxer::write_audio,Mp4Writer::write_audio_sample,is_valid_opus_packet" bound="VP9+Opus after keyframe at 1.0; any f64 pts; valid Opus packet" unwind=14 stubs="fmt::format"
 audio_h!(c04_audio_opus_after_video, true, false, Aud::Opus, true, false, &OPUS_PKT, true);
-//@ prop=C04,C12 tier=quick cost=60 fns="api::Muxer::write_audio" bound="VP9+Opus, no video yet; any f64 pts" unwind=14 stubs="fmt::format" covers_optional="accepted"
+//@ prop=C04,C12 tier=quick cost=14 fns="api::Muxer::write_audio" bound="VP9+Opus, no video yet; any f64 pts" unwind=14 stubs="fmt::format" covers_optional="accepted"
 audio_h!(c04_audio_before_video, true, false, Aud::Opus, false, false, &OPUS_PKT, true);
-//@ prop=C04,C12 tier=quick cost=60 fns="api::Muxer::write_audio" bound="VP9 without audio track; any f64 pts" unwind=14 stubs="fmt::format" covers_optional="accepted"
+//@ prop=C04,C12 tier=quick cost=17 fns="api::Muxer::write_audio" bound="VP9 without audio track; any f64 pts" unwind=14 stubs="fmt::format" covers_optional="accepted"
 audio_h!(c04_audio_not_configured, true, false, Aud::None, true, false, &OPUS_PKT, true);
-//@ prop=C04,C12 tier=quick cost=90 fns="api::Muxer::write_audio,Mp4Writer::write_audio_sample" bound="VP9+Opus after keyframe at 1.0 and audio at 1.5; any f64 pts; valid packet" unwind=14 stubs="fmt::format"
+//@ prop=C04,C12 tier=quick cost=28 fns="api::Muxer::write_audio,Mp4Writer::write_audio_sample" bound="VP9+Opus after keyframe at 1.0 and audio at 1.5; any f64 pts; valid packet" unwind=14 stubs="fmt::format"
 audio_h!(c04_audio_opus_second, true, false, Aud::Opus, true, true, &OPUS_PKT, true);
-//@ prop=C04,C12 tier=quick cost=90 fns="api::Muxer::write_audio,Mp4Writer::write_audio_sample,is_valid_opus_packet" bound="VP9+Opus after keyframe and one audio frame; any f64 pts; invalid Opus packet (code 3, zero frames)" unwind=14 stubs="fmt::format" covers_optional="accepted"
+//@ prop=C04,C12 tier=quick cost=28 fns="api::Muxer::write_audio,Mp4Writer::write_audio_sample,is_valid_opus_packet" bound="VP9+Opus after keyframe and one audio frame; any f64 pts; invalid Opus packet (code 3, zero frames)" unwind=14 stubs="fmt::format" covers_optional="accepted"
 audio_h!(c04_audio_opus_invalid, true, false, Aud::Opus, true, true, &[0x03, 0x00], false);
-//@ prop=C04,C12 tier=quick cost=200 fns="api::Muxer::write_audio,Mp4Writer::write_audio_sample,adts_to_raw" bound="VP9+AAC after keyframe; any f64 pts; valid 9-byte ADTS frame" unwind=14 stubs="fmt::format,String::push" timeout=900
+//@ prop=C04,C12 tier=quick cost=26 fns="api::Muxer::write_audio,Mp4Writer::write_audio_sample,adts_to_raw" bound="VP9+AAC after keyframe; any f64 pts; valid 9-byte ADTS frame" unwind=14 stubs="fmt::format,String::push" timeout=900
 audio_h!(c04_audio_aac_valid, true, false, Aud::Aac, true, false, &ADTS_PKT, true);
-//@ prop=C04,C12 tier=quick cost=200 fns="api::Muxer::write_audio,Mp4Writer::write_audio_sample,adts_to_raw" bound="VP9+AAC after keyframe; any f64 pts; 9 bytes without ADTS sync word" unwind=14 stubs="fmt::format,String::push" covers_optional="accepted" timeout=900
+//@ prop=C04,C12 tier=quick cost=35 fns="api::Muxer::write_audio,Mp4Writer::write_audio_sample,adts_to_raw" bound="VP9+AAC after keyframe; any f64 pts; 9 bytes without ADTS sync word" unwind=14 stubs="fmt::format,String::push" covers_optional="accepted" timeout=900
 audio_h!(c04_audio_aac_invalid, true, false, Aud::Aac, true, false, &[0u8, 1, 2, 3, 4, 5, 6, 7, 8], false);
 
-//@ prop=C05 tier=quick cost=90 fns="api::Muxer::write_audio,Mp4Writer::write_audio_sample" bound="VP9+Opus after keyframe and one audio frame; any f64 pts; invalid Opus packet" unwind=14 stubs="fmt::format" covers_optional="accepted"
+//@ prop=C05 tier=quick cost=18 fns="api::Muxer::write_audio,Mp4Writer::write_audio_sample" bound="VP9+Opus after keyframe and one audio frame; any f64 pts; invalid Opus packet" unwind=14 stubs="fmt::format" covers_optional="accepted"
 audio_h!(c05_audio_opus_invalid_second, false, true, Aud::Opus, true, true, &[0x03, 0x00], false);
-//@ prop=C05 tier=quick cost=90 fns="api::Muxer::write_audio,Mp4Writer::write_audio_sample" bound="VP9+Opus after keyframe and one audio frame; any f64 pts; valid packet (rejections by time)" unwind=14 stubs="fmt::format"
+//@ prop=C05 tier=quick cost=17 fns="api::Muxer::write_audio,Mp4Writer::write_audio_sample" bound="VP9+Opus after keyframe and one audio frame; any f64 pts; valid packet (rejections by time)" unwind=14 stubs="fmt::format"
 audio_h!(c05_audio_opus_second, false, true, Aud::Opus, true, true, &OPUS_PKT, true);
-//@ prop=C05 tier=quick cost=200 fns="api::Muxer::write_audio,Mp4Writer::write_audio_sample,adts_to_raw" bound="VP9+AAC after keyframe and one audio frame; any f64 pts; bytes without ADTS sync" unwind=14 stubs="fmt::format,String::push" covers_optional="accepted" timeout=900
+//@ prop=C05 tier=quick cost=34 fns="api::Muxer::write_audio,Mp4Writer::write_audio_sample,adts_to_raw" bound="VP9+AAC after keyframe and one audio frame; any f64 pts; bytes without ADTS sync" unwind=14 stubs="fmt::format,String::push" covers_optional="accepted" timeout=900
 audio_h!(c05_audio_aac_invalid_second, false, true, Aud::Aac, true, true, &[0u8, 1, 2, 3, 4, 5, 6, 7, 8], false);
 
 // ---- rejected first video frame must not unlock audio (C05, two-step) ---------------
-//@ prop=C05,C04 tier=quick cost=90 fns="api::Muxer::write_video,api::Muxer::write_audio" bound="fresh VP9+Opus muxer; rejected first video frame (any f64 pts, no config), then audio at any f64 pts" unwind=14 stubs="fmt::format"
+//@ prop=C05,C04 tier=quick cost=19 fns="api::Muxer::write_video,api::Muxer::write_audio" bound="fresh VP9+Opus muxer; rejected first video frame (any f64 pts, no config), then audio at any f64 pts" unwind=14 stubs="fmt::format"
 h!(c05_rejected_first_video_then_audio, 14, {
     let mut m = new_muxer(VideoCodec::Vp9, Aud::Opus);
     let t: f64 = kani::any();
@@ -231,7 +231,7 @@ h!(c05_rejected_first_video_then_audio, 14, {
 });
 
 // ---- builder ---------------------------------------------------------------------------
-//@ prop=C04,C12 tier=quick cost=30 fns="api::MuxerBuilder::build" bound="video configured or not; any dims / f64 framerate / audio settings" unwind=6 stubs="fmt::format"
+//@ prop=C04,C12 tier=quick cost=5 fns="api::MuxerBuilder::build" bound="video configured or not; any dims / f64 framerate / audio settings" unwind=6 stubs="fmt::format"
 h!(c04_builder_build, 6, {
     let with_video: bool = kani::any();
     let b = MuxerBuilder::new(NullSink);
@@ -257,7 +257,7 @@ h!(c12_encode_video_h264_sym4, 9, {
     crate::vcover!(r.is_err(), "rejected");
     core::mem::forget((m, r));
 });
-//@ prop=C12 tier=quick cost=60 fns="api::Muxer::encode_video,is_keyframe,is_vp9_keyframe" bound="fresh VP9 muxer; all frames of 2 bytes and of 0 bytes, any duration_ms" unwind=9 stubs="fmt::format"
+//@ prop=C12 tier=quick cost=11 fns="api::Muxer::encode_video,is_keyframe,is_vp9_keyframe" bound="fresh VP9 muxer; all frames of 2 bytes and of 0 bytes, any duration_ms" unwind=9 stubs="fmt::format"
 h!(c12_encode_video_vp9_short, 9, {
     let mut m = new_muxer(VideoCodec::Vp9, Aud::None);
     let d: [u8; 2] = kani::any();
@@ -268,7 +268,7 @@ h!(c12_encode_video_vp9_short, 9, {
     crate::vcover!(r.is_err(), "rejected");
     core::mem::forget((m, r, r2));
 });
-//@ prop=C12 tier=quick cost=200 fns="api::Muxer::encode_video,is_keyframe,write_video" bound="fresh H.264 muxer; all 3-byte frames and the empty frame" unwind=8 stubs="fmt::format" timeout=1200 mem=20
+//@ prop=C12 tier=quick cost=200 fns="api::Muxer::encode_video,is_keyframe,write_video" bound="fresh H.264 muxer; all 3-byte frames and the empty frame" unwind=8 stubs="fmt::format" timeout=1200 mem=12
 h!(c12_encode_video_h264_sym3, 8, {
     let mut m = new_muxer(VideoCodec::H264, Aud::None);
     let d: [u8; 3] = kani::any();
@@ -301,7 +301,7 @@ h!(c12_encode_video_av1_sym3, 34, {
     crate::vcover!(r.is_err(), "rejected");
     core::mem::forget((m, r, r2));
 });
-//@ prop=C12 tier=quick cost=90 fns="api::Muxer::encode_audio,write_audio" bound="VP9+Opus after a keyframe; all 2-byte packets, any sample count; also without audio track" unwind=9 stubs="fmt::format"
+//@ prop=C12 tier=quick cost=24 fns="api::Muxer::encode_audio,write_audio" bound="VP9+Opus after a keyframe; all 2-byte packets, any sample count; also without audio track" unwind=9 stubs="fmt::format"
 h!(c12_encode_audio, 9, {
     let mut m = new_muxer(VideoCodec::Vp9, Aud::Opus);
     let r0 = m.write_video(0.0, &VP9_KEY, true);
@@ -365,13 +365,13 @@ fn video_dts_step(m: &mut Muxer<NullSink>, prev_dts: Option<f64>, frame: &[u8], 
     crate::vcover!(c == Cls::MissingConfig || c == Cls::FirstNotKey, "rejected by the writer");
     core::mem::forget(r);
 }
-//@ prop=C04,C12 tier=quick cost=120 fns="api::Muxer::write_video_with_dts,Mp4Writer::write_video_sample_with_dts" bound="fresh VP9 muxer; any f64 pts and dts, any key flag; valid keyframe" unwind=14 stubs="fmt::format" timeout=1200 covers_optional="rejected by the writer"
+//@ prop=C04,C12 tier=quick cost=26 fns="api::Muxer::write_video_with_dts,Mp4Writer::write_video_sample_with_dts" bound="fresh VP9 muxer; any f64 pts and dts, any key flag; valid keyframe" unwind=14 stubs="fmt::format" timeout=1200 covers_optional="rejected by the writer"
 h!(c04_video_dts_fresh_key, 14, {
     let mut m = new_muxer(VideoCodec::Vp9, Aud::Opus);
     video_dts_step(&mut m, None, &VP9_KEY, true, true, false);
     core::mem::forget(m);
 });
-//@ prop=C04,C12 tier=quick cost=120 fns="api::Muxer::write_video_with_dts,Mp4Writer::write_video_sample_with_dts" bound="VP9 muxer after one explicit-DTS keyframe at pts 1.0 / dts 1.0; any f64 pts and dts, any key flag" unwind=14 stubs="fmt::format" timeout=1200 covers_optional="rejected by the writer"
+//@ prop=C04,C12 tier=quick cost=22 fns="api::Muxer::write_video_with_dts,Mp4Writer::write_video_sample_with_dts" bound="VP9 muxer after one explicit-DTS keyframe at pts 1.0 / dts 1.0; any f64 pts and dts, any key flag" unwind=14 stubs="fmt::format" timeout=1200 covers_optional="rejected by the writer"
 h!(c04_video_dts_second, 14, {
     let mut m = new_muxer(VideoCodec::Vp9, Aud::Opus);
     let r0 = m.write_video_with_dts(1.0, 1.0, &VP9_KEY, true);
@@ -379,13 +379,13 @@ h!(c04_video_dts_second, 14, {
     video_dts_step(&mut m, Some(1.0), &VP9_DELTA, false, true, false);
     core::mem::forget((m, r0));
 });
-//@ prop=C05 tier=quick cost=120 fns="api::Muxer::write_video_with_dts" bound="fresh VP9 muxer; any f64 pts and dts, any key flag; frame without configuration (rejected by the writer)" unwind=14 stubs="fmt::format" timeout=1200 covers_optional="accepted"
+//@ prop=C05 tier=quick cost=16 fns="api::Muxer::write_video_with_dts" bound="fresh VP9 muxer; any f64 pts and dts, any key flag; frame without configuration (rejected by the writer)" unwind=14 stubs="fmt::format" timeout=1200 covers_optional="accepted"
 h!(c05_video_dts_fresh_noconfig, 14, {
     let mut m = new_muxer(VideoCodec::Vp9, Aud::Opus);
     video_dts_step(&mut m, None, &VP9_DELTA, false, false, true);
     core::mem::forget(m);
 });
-//@ prop=C05 tier=quick cost=120 fns="api::Muxer::write_video_with_dts" bound="VP9 muxer after one explicit-DTS keyframe; any f64 pts and dts (rejections by time)" unwind=14 stubs="fmt::format" timeout=1200 covers_optional="rejected by the writer"
+//@ prop=C05 tier=quick cost=17 fns="api::Muxer::write_video_with_dts" bound="VP9 muxer after one explicit-DTS keyframe; any f64 pts and dts (rejections by time)" unwind=14 stubs="fmt::format" timeout=1200 covers_optional="rejected by the writer"
 h!(c05_video_dts_second, 14, {
     let mut m = new_muxer(VideoCodec::Vp9, Aud::Opus);
     let r0 = m.write_video_with_dts(1.0, 1.0, &VP9_KEY, true);
@@ -393,7 +393,7 @@ h!(c05_video_dts_second, 14, {
     video_dts_step(&mut m, Some(1.0), &VP9_DELTA, false, false, true);
     core::mem::forget((m, r0));
 });
-//@ prop=C05,C04 tier=quick cost=120 fns="api::Muxer::write_video_with_dts,api::Muxer::write_audio" bound="fresh VP9+Opus muxer; rejected first explicit-DTS frame (any f64 pts/dts), then audio at any f64 pts" unwind=14 stubs="fmt::format" timeout=1200
+//@ prop=C05,C04 tier=quick cost=16 fns="api::Muxer::write_video_with_dts,api::Muxer::write_audio" bound="fresh VP9+Opus muxer; rejected first explicit-DTS frame (any f64 pts/dts), then audio at any f64 pts" unwind=14 stubs="fmt::format" timeout=1200
 h!(c05_rejected_first_dts_video_then_audio, 14, {
     let mut m = new_muxer(VideoCodec::Vp9, Aud::Opus);
     let r = m.write_video_with_dts(kani::any(), kani::any(), &VP9_DELTA, kani::any());
